@@ -175,3 +175,100 @@ def fam_c09(R, n):
     for p, pr in [('a+', 7), ('[a-z]{4}', 1), ('abc', 0)]:
         out.append(dict(family='c09-explicit', src=enum([], ['#[regex(%s, priority = %d)] A,' % (rust_str(p), pr)]), meta=dict(leaf=0, explicit=pr)))
     return out
+
+
+# ---------------------------------------------------------------------------------------------
+# C18: permutations of named arguments / of #[logos(...)] items
+# ---------------------------------------------------------------------------------------------
+import itertools
+
+NAMED = {
+    'priority': ('priority = 7', ['i:priority', 'e', 'l:7']),
+    'callback': ('callback = my_cb', ['i:callback', 'e', 'i:my_cb']),
+    'ignore': ('ignore(case)', ['i:ignore', 'g:0']),
+    'allow_greedy': ('allow_greedy = true', ['i:allow_greedy', 'e', 'i:true']),
+}
+MALFORMED = [
+    ('priority = 1, priority = 2', ['i:priority', 'e', 'l:1', 'c', 'i:priority', 'e', 'l:2']),
+    ('callback = a, callback = b', ['i:callback', 'e', 'i:a', 'c', 'i:callback', 'e', 'i:b']),
+    ('allow_greedy = true, allow_greedy = false', ['i:allow_greedy', 'e', 'i:true', 'c', 'i:allow_greedy', 'e', 'i:false']),
+    ('colour = 3', ['i:colour', 'e', 'l:3']),
+    ('priority(3)', ['i:priority', 'g:1']),
+    ('ignore = case', ['i:ignore', 'e', 'i:case']),
+    ('priority = 3, my_cb', ['i:priority', 'e', 'l:3', 'c', 'i:my_cb']),
+    ('my_cb, priority = 3', ['i:my_cb', 'c', 'i:priority', 'e', 'l:3']),
+    ('callback "x"', ['i:callback', 'l:9']),
+    ('type t u', ['i:type', 'i:t', 'i:u']),
+    ('ignore(case) priority = 3', ['i:ignore', 'g:0', 'i:priority', 'e', 'l:3']),
+    ('ignore(case),', ['i:ignore', 'g:0', 'c']),
+    ('priority = 3,', ['i:priority', 'e', 'l:3', 'c']),
+]
+
+
+def fam_c18(R, n_sets):
+    """returns cases with meta: group id (cases of one group must agree), abstract tokens for the model"""
+    out = []
+    names = list(NAMED)
+    subsets = []
+    for k in range(1, 5):
+        for sub in itertools.combinations(names, k):
+            subsets.append(sub)
+    R.shuffle(subsets)
+    gid = 0
+    for sub in subsets[:n_sets]:
+        for form in ('token', 'regex', 'skip'):
+            if form == 'token' and 'allow_greedy' in sub:
+                pass  # accepted by the parser for tokens too (the flag is simply unused)
+            for positional in (False, True):
+                if positional and 'callback' in sub:
+                    continue
+                lit = '"ab"' if form != 'regex' else '"a[b-c]+"'
+                for perm in itertools.permutations(sub):
+                    for trailing in (False, True):
+                        parts = [NAMED[x][0] for x in perm]
+                        toks = []
+                        if positional:
+                            parts = ['|lex| lex.slice().len()'] + parts
+                            toks += ['p:124', 'i:lex', 'p:124', 'i:lex', 'p:46', 'i:slice', 'g:5', 'p:46', 'i:len', 'g:6', 'c']
+                        for j, x in enumerate(perm):
+                            toks += NAMED[x][1]
+                            if j + 1 < len(perm):
+                                toks.append('c')
+                        body = ', '.join([lit] + parts) + (',' if trailing else '')
+                        if trailing:
+                            toks.append('c')
+                        if form == 'skip':
+                            src = enum(['#[logos(skip(%s))]' % body], ['#[token("zz")] Z,'])
+                        else:
+                            vt = 'A(usize)' if positional else 'A'
+                            src = enum([], ['#[%s(%s)] %s,' % (form, body, vt)])
+                        out.append(dict(family='c18-args', src=src,
+                                        meta=dict(group=gid, perm=list(perm), tokens=toks, form=form, leaf=0,
+                                                  expect=dict(prio='priority' in sub, cb=('callback' in sub) or positional,
+                                                              ag='allow_greedy' in sub, ign='ignore' in sub))))
+                gid += 1
+    # malformed argument lists: the model must predict the error classes of the real parser
+    for (text, toks) in MALFORMED:
+        for form in ('token', 'regex'):
+            src = enum([], ['#[%s("ab", %s)] A,' % (form, text)])
+            out.append(dict(family='c18-malformed', src=src, meta=dict(group=None, tokens=toks, form=form, leaf=0)))
+    return out
+
+
+LOGOS_ITEMS = ['skip(" +")', 'skip("x", priority = 9)', 'utf8 = false', 'error = MyErr', 'extras = MyExtras',
+               'subpattern ab = "a|b"', 'skip("(?&ab)+q", priority = 3)', 'crate = logos', 'skip "\\t"', 'skip("k", ignore(case))']
+
+
+def fam_c18_logos(R, n):
+    out = []
+    gid = 1000
+    for i in range(n):
+        k = R.choice([2, 3, 3, 4])
+        items = R.sample(LOGOS_ITEMS, k)
+        perms = list(itertools.permutations(items))
+        R.shuffle(perms)
+        for perm in [tuple(items)] + perms[:5]:
+            src = enum(['#[logos(%s)]' % ', '.join(perm)], ['#[regex("[a-z]+")] Id,', '#[token("=")] Eq,'])
+            out.append(dict(family='c18-logos', src=src, meta=dict(group=gid, perm=list(perm))))
+        gid += 1
+    return out
